@@ -25,7 +25,7 @@ Qed.
 Lemma filters_doc_ok_spec d : filters_doc_ok d = true ->
   forall o sd boff len, In o (d_objects d) -> o_body o = BStream sd boff len ->
     match dict_get n_Filter sd, dict_get n_DecodeParms sd with
-    | None, None => True
+    | None, _ => True
     | Some (OName _), None => True
     | Some (OName _), Some (ODict _) => True
     | Some (OArr names), None => forallb is_name names = true
@@ -62,7 +62,7 @@ Proof.
   change n_Filter with k_Filter. change n_DecodeParms with k_DecodeParms.
   rewrite !dict_get_norm_parms, S1, S2.
   destruct fs as [|f0 [|f1 fs]].
-  - destruct H as [-> ->]. reflexivity.
+  - destruct H as [HF _]. rewrite HF. reflexivity.
   - destruct H as [-> ->]. cbn [is_null norm]. destruct (snd f0); reflexivity.
   - change (repr_many (f0 :: f1 :: fs) sd) in H. destruct H as [-> HD].
     cbn [is_null norm]. rewrite map_norm_nm.
